@@ -40,7 +40,7 @@ Section Auth.
         unfold get_attestor in *. rewrite <- Ea. exact Hg1.
       + cbn [resolvers resolver_seq data_resolvers set_attestors] in *. repeat split; try congruence.
         intros i a' t' Hg. destruct (Ha _ _ _ Hg) as [Hg1 | ->]; [|right; reflexivity].
-        unfold get_attestor in Hg1. cbn [attestors set_attestors ainsert] in Hg1. rewrite alookup_cons in Hg1.
+        unfold get_attestor in Hg1. cbn [attestors set_attestors ainsert alookup] in Hg1.
         destruct (att_key_eqb (i, a') (id, a)) eqn:Ek.
         * apply att_key_eqb_ok in Ek. injection Ek as _ ->. right. reflexivity.
         * left. unfold get_attestor. rewrite <- Ea. exact Hg1.
@@ -142,7 +142,7 @@ Section Auth.
       unfold get_resolver in *. rewrite Er. congruence.
     - unfold handle_define_resolver in Eh. destruct (get_resolver (resolver_seq s + 1) s) eqn:Eg; [discriminate|].
       destruct (resolver_taken _ _); [discriminate|]. injection Eh as <- _.
-      unfold get_resolver in *. cbn [resolvers set_resolvers ainsert]. rewrite alookup_cons.
+      unfold get_resolver in *. cbn [resolvers set_resolvers ainsert alookup].
       destruct (rid =? resolver_seq s + 1) eqn:Ek; [|congruence]. apply N.eqb_eq in Ek.
       intros [= <- <-]. exists d, uok, pub. repeat split. exact Ek.
     - unfold handle_register_resolver in Eh. destruct (get_resolver rid' s) as [[url1 mgr1]|]; [|discriminate].
